@@ -298,3 +298,128 @@ func expandShortCircuit(cond ssa.Value, outcome bool, at *ssa.BasicBlock, depth 
 	}
 	return out
 }
+
+// evalByteExpr evaluates an integer/boolean expression over one distinguished byte value (isByte tells which SSA
+// value denotes it) for the concrete byte b: constants, conversions to (u)int8, bit operations, comparisons, !,
+// bits.LeadingZeros8/Len8. ok=false when the expression involves anything else.
+func evalByteExpr(v ssa.Value, isByte func(ssa.Value) bool, b int64, d int) (int64, bool) {
+	return evalLeafExpr(v, func(x ssa.Value) (int64, bool) {
+		if isByte(x) {
+			return b, true
+		}
+		return 0, false
+	}, d)
+}
+
+// evalLeafExpr is evalByteExpr over any number of distinguished values: leaf gives the concrete value of one.
+func evalLeafExpr(v ssa.Value, leaf func(ssa.Value) (int64, bool), d int) (int64, bool) {
+	if d > 8 {
+		return 0, false
+	}
+	if k, ok := leaf(v); ok {
+		return k, true
+	}
+	if k, ok := constIntVal(v); ok {
+		return k, true
+	}
+	if k, ok := v.(*ssa.Const); ok && k.Value != nil && k.Value.Kind() == constant.Bool {
+		if constant.BoolVal(k.Value) {
+			return 1, true
+		}
+		return 0, true
+	}
+	bo := func(c bool) int64 {
+		if c {
+			return 1
+		}
+		return 0
+	}
+	switch x := v.(type) {
+	case *ssa.Convert:
+		val, ok := evalLeafExpr(x.X, leaf, d+1)
+		if !ok {
+			return 0, false
+		}
+		if bt, isB := x.Type().Underlying().(*types.Basic); isB {
+			switch bt.Kind() {
+			case types.Int8:
+				return int64(int8(val)), true
+			case types.Uint8:
+				return int64(uint8(val)), true
+			}
+		}
+		return val, true
+	case *ssa.Call:
+		if id := callID(&x.Call); id.pkg == "math/bits" && (id.name == "LeadingZeros8" || id.name == "Len8") && len(x.Call.Args) == 1 {
+			val, ok := evalLeafExpr(x.Call.Args[0], leaf, d+1)
+			if !ok {
+				return 0, false
+			}
+			n := int64(0)
+			for i := 7; i >= 0 && (val>>uint(i))&1 == 0; i-- {
+				n++
+			}
+			if id.name == "Len8" {
+				return 8 - n, true
+			}
+			return n, true
+		}
+	case *ssa.BinOp:
+		l, ok1 := evalLeafExpr(x.X, leaf, d+1)
+		rr, ok2 := evalLeafExpr(x.Y, leaf, d+1)
+		if !ok1 || !ok2 {
+			return 0, false
+		}
+		switch x.Op {
+		case token.AND:
+			return l & rr, true
+		case token.OR:
+			return l | rr, true
+		case token.XOR:
+			return l ^ rr, true
+		case token.SHR:
+			return l >> uint(rr), true
+		case token.SHL:
+			return l << uint(rr), true
+		case token.EQL:
+			return bo(l == rr), true
+		case token.NEQ:
+			return bo(l != rr), true
+		case token.LSS:
+			return bo(l < rr), true
+		case token.LEQ:
+			return bo(l <= rr), true
+		case token.GTR:
+			return bo(l > rr), true
+		case token.GEQ:
+			return bo(l >= rr), true
+		}
+	case *ssa.UnOp:
+		if x.Op == token.NOT {
+			val, ok := evalLeafExpr(x.X, leaf, d+1)
+			return 1 - val, ok
+		}
+	}
+	return 0, false
+}
+
+// condsHoldForByte: every condition of conds that can be evaluated over the byte has its recorded outcome for b
+// (conditions about anything else are taken to hold).
+func condsHoldForByte(conds []domCond, isByte func(ssa.Value) bool, b int64) bool {
+	for _, dc := range conds {
+		if val, ok := evalByteExpr(dc.cond, isByte, b, 0); ok && (val != 0) != dc.outcome {
+			return false
+		}
+	}
+	return true
+}
+
+// condsHoldFor: condsHoldForByte with a general leaf valuation.
+func condsHoldFor(conds []domCond, leaf func(ssa.Value) (int64, bool)) bool {
+	for _, dc := range conds {
+		if val, ok := evalLeafExpr(dc.cond, leaf, 0); ok && (val != 0) != dc.outcome {
+			return false
+		}
+	}
+	return true
+}
